@@ -174,3 +174,37 @@ fn c15_client_hello_parsed() {
         vcover!(ch.rand_time() == 0x0102_0304, "C15.cover.parsed_rand_time");
     }
 }
+
+/// Parsed DTLS ClientHello through the shared trait.
+#[kani::proof]
+#[kani::unwind(6)]
+fn c15_dtls_client_hello_parsed() {
+    // handshake header (12) + version, random(32), sid len 0, cookie len 1, 1 cipher, 1 compression
+    const BL: usize = 2 + 32 + 1 + 1 + 1 + 2 + 2 + 1 + 1;
+    let mut b: [u8; 12 + BL] = kani::any();
+    b[0] = 1;
+    b[1] = 0; b[2] = 0; b[3] = BL as u8;
+    b[6] = 0; b[7] = 0; b[8] = 0;
+    b[9] = 0; b[10] = 0; b[11] = BL as u8;
+    b[12 + 34] = 0;
+    b[12 + 35] = 1;
+    b[12 + 37] = 0;
+    b[12 + 38] = 2;
+    b[12 + 41] = 1;
+    let r = ManuallyDrop::new(tp::parse_dtls_message_handshake(&b));
+    vassert!(r.is_ok(), "C15.dtlsparsed.accepted");
+    if let Ok((_, tp::DTLSMessage::Handshake(hm))) = &*r {
+        if let tp::DTLSMessageHandshakeBody::ClientHello(ch) = &hm.body {
+            vassert!(ch.version().0 == be16(&b, 12), "C15.dtlsparsed.version");
+            vassert!(same_slice(ch.random(), &b[14..46]), "C15.dtlsparsed.random_is_the_32_wire_bytes");
+            vassert!(ch.rand_time() == be32(&b, 14), "C15.dtlsparsed.rand_time_is_be_u32_of_first_four_random_bytes");
+            vassert!(same_slice(ch.rand_bytes(), &b[18..46]), "C15.dtlsparsed.rand_bytes_are_the_remaining_28");
+            vassert!(ch.session_id().is_none() && ch.ext().is_none(), "C15.dtlsparsed.absent_fields");
+            vassert!(ch.ciphers().len() == 1 && ch.ciphers()[0].0 == be16(&b, 12 + 39), "C15.dtlsparsed.ciphers");
+            vassert!(ch.comp().len() == 1 && ch.comp()[0].0 == b[12 + 42], "C15.dtlsparsed.comp");
+            vcover!(true, "C15.cover.dtls_parsed");
+        } else {
+            vassert!(false, "C15.dtlsparsed.variant");
+        }
+    }
+}
